@@ -3,6 +3,7 @@ package mon
 import (
 	"bytes"
 	"fmt"
+	"path"
 	"regexp"
 	"strconv"
 	"strings"
@@ -369,6 +370,9 @@ func runC08(c *core.Ctx) {
 			"switch": 4, "switch-c": 3, "branch-create": 2, "branch-rename": 1,
 		}
 		k := NewWalker(w, gen.NameOpts{Space: w.Hist%2 == 0, NonASCII: w.Hist%5 == 0, MaxDepth: 4, N: 6}, wts)
+		if w.Hist%3 == 2 {
+			k.Enable("edit-link-over", 5) // reset --hard must not write through a link at a tracked path
+		}
 		k.Hostile = 3
 		k.MaxContent = 3000
 		k.Init()
@@ -529,6 +533,24 @@ func (C11Mon) After(w *core.World, st *core.Step) {
 	}
 	observeReflog(w, st)
 	if k := journalKind(st); k != "" {
+		// the record itself: "<old id> <new id> <name> <<email>> <seconds> <zone>\t<kind>: ...", the zone as sign and four digits
+		if raw := st.Post.GoitFiles()["logs/HEAD"]; len(raw) > len(st.Pre.GoitFiles()["logs/HEAD"]) {
+			lines := strings.Split(strings.TrimSuffix(string(raw), "\n"), "\n")
+			head, _, _ := strings.Cut(lines[len(lines)-1], "\t")
+			f := strings.Fields(head)
+			c.Oracle("C11.record-zone")
+			if len(f) >= 2 {
+				if zone := f[len(f)-1]; !journalZoneRe.MatchString(zone) {
+					w.Fail("C11.record-zone", "zone-malformed", "tz:"+tzClass(st.TZ), "after %s the journal record ends with the zone %q (process zone %s)", st.String(), zone, path.Base(st.TZ))
+				} else if k == "commit" {
+					if o, ok := st.Post.Repo().Obj(st.Post.Repo().HeadCommit()); ok {
+						if m := committerZoneRe.FindSubmatch(o.Body); m != nil && string(m[1]) != zone {
+							w.Fail("C11.record-zone", "zone-differs-from-commit", "tz:"+tzClass(st.TZ), "after %s the journal record says zone %q, the commit object %q", st.String(), zone, m[1])
+						}
+					}
+				}
+			}
+		}
 		// did the command really change/touch the journal target? every successful one adds an entry
 		s.adds++
 		s.lastKind = k
@@ -758,4 +780,19 @@ func (k *Walker) posArg(pos int) string {
 		return fmt.Sprintf("HEAD@{%0*d}", len(fmt.Sprint(pos))+1+k.R.IntN(2), pos)
 	}
 	return fmt.Sprintf("HEAD@{%d}", pos)
+}
+
+var journalZoneRe = regexp.MustCompile(`^[+-][0-9]{4}$`)
+var committerZoneRe = regexp.MustCompile(`(?m)^committer .* [0-9]+ ([+-][0-9]{4})$`)
+
+// tzClass: the kind of offset a synthetic zone file name stands for (whole hour or not, sign).
+func tzClass(tz string) string {
+	b := path.Base(tz)
+	switch {
+	case tz == "" || tz == "UTC":
+		return "utc"
+	case strings.Contains(b, "m"):
+		return "negative"
+	}
+	return "other"
 }
